@@ -35,6 +35,31 @@ func wpick(r *rand.Rand, w []int) int {
 
 func pick(r *rand.Rand, xs ...string) string { return xs[r.Intn(len(xs))] }
 
+// friendlySpec is satisfiable by most of the target's versions.
+func friendlySpec(r *rand.Rand, target []ver) string {
+	if len(target) == 0 {
+		return ""
+	}
+	v := target[r.Intn(len(target))].V
+	lo, hi := target[0].V, target[len(target)-1].V
+	switch r.Intn(10) {
+	case 0, 1, 2:
+		return ""
+	case 3, 4:
+		return ">=" + lo
+	case 5:
+		return "<=" + hi
+	case 6:
+		return "!=" + v
+	case 7:
+		return ">=" + v
+	case 8:
+		return "<=" + v
+	default:
+		return ">=" + lo + ",<=" + hi
+	}
+}
+
 func genSpec(r *rand.Rand, target []ver) string {
 	one := func() string {
 		b := boundPool[r.Intn(len(boundPool))]
@@ -115,6 +140,8 @@ func genMarker(r *rand.Rand, depth int) string {
 }
 
 type genOpts struct {
+	friendly               bool
+	route, late            bool
 	nPkg, maxVers, maxReqs int
 	markers, extras        int // percent of requirements
 	gadget                 bool
@@ -178,6 +205,9 @@ func genUniverse(r *rand.Rand, o genOpts) *uni {
 					target = tp.Vers
 				}
 				d := req{Pkg: q, Spec: genSpec(r, target)}
+				if o.friendly && r.Intn(6) != 0 {
+					d.Spec = friendlySpec(r, target)
+				}
 				if !o.malformed {
 					for strings.Contains("bogus =>1.0 >= 1.0 ^1.0", d.Spec) && d.Spec != "" {
 						d.Spec = genSpec(r, target)
@@ -221,6 +251,29 @@ func genUniverse(r *rand.Rand, o genOpts) *uni {
 				set(&u.Pkgs[j], vi, pick(r, "==", ">=", "<", "!=")+c.Vers[r.Intn(len(c.Vers))].V)
 			}
 		}
+	}
+	// anchor for the gadgets: some version of a random package
+	anchor := func() *ver {
+		p := &u.Pkgs[r.Intn(len(u.Pkgs))]
+		return &p.Vers[r.Intn(len(p.Vers))]
+	}
+	if o.route {
+		// F-C08-route shape: rb@2 -> rx, rx -> ry, ry -> rx and ry -> rb<2, rb@1 -> rx
+		a := anchor()
+		a.Reqs = append(a.Reqs, req{Pkg: "rb"})
+		u.Pkgs = append(u.Pkgs,
+			pkg{Name: "rb", Vers: []ver{{V: "1.0", Reqs: []req{{Pkg: "rx"}}}, {V: "2.0", Reqs: []req{{Pkg: "rx"}}}}},
+			pkg{Name: "rx", Vers: []ver{{V: "1.0", Reqs: []req{{Pkg: "ry"}}}}},
+			pkg{Name: "ry", Vers: []ver{{V: "1.0", Reqs: []req{{Pkg: "rx"}, {Pkg: "rb", Spec: pick(r, "<2.0", "==1.0", "!=2.0")}}}}})
+	}
+	if o.late {
+		// F-C08-extras shape: la is pinned without extras, then lb asks for la[x]
+		a := anchor()
+		a.Reqs = append(a.Reqs, req{Pkg: "la"}, req{Pkg: "lb"})
+		u.Pkgs = append(u.Pkgs,
+			pkg{Name: "la", Vers: []ver{{V: "1.0", Reqs: []req{{Pkg: "lc", HasEnv: true, Env: `extra == "x"`}}}}},
+			pkg{Name: "lb", Vers: []ver{{V: "1.0", Reqs: []req{{Pkg: "la", HasEx: true, Ex: "x"}}}}},
+			pkg{Name: "lc", Vers: []ver{{V: "1.0"}}})
 	}
 	u.normalise()
 	return u
@@ -287,10 +340,17 @@ func emit(c *fw.Ctx, u *uni, rn, rv, tag string) {
 		return
 	}
 	// the classifier's correspondence op (model logs the same flags)
-	j, cres := c.Op(u.line("classify", rn, rv))
-	_ = j
+	_, cres := c.Op(u.line("classify", rn, rv))
 	if strings.Contains(cres, "late=1") {
 		c.Count("hyp.late-extras")
+	}
+	if strings.Contains(cres, "route=1") {
+		c.Count("hyp.route-not-closed")
+	}
+	so := runSim(u, rn, rv)
+	if so.result != res {
+		c.Count("sim.disagrees-with-go")
+		c.Note("Go port of the model disagrees with the real code on: " + line)
 	}
 	if cd.g == nil {
 		return
@@ -302,10 +362,18 @@ func emit(c *fw.Ctx, u *uni, rn, rv, tag string) {
 		c.Nontrivial(res)
 	}
 	c.Count(fmt.Sprintf("nodes.%02d", min(len(cd.g.nodes), 12)))
-	if strings.Contains(cres, "backtracks=0") {
+	if so.backtracks == 0 {
 		c.Count("run.no-backtrack")
 	} else {
 		c.Count("run.backtracked")
+	}
+	if strings.Contains(cres, "stale=1") {
+		c.Count("hyp.stale-information")
+	}
+	if so.late || so.route || so.stale {
+		c.Count("run.outside-partial-hypotheses")
+	} else {
+		c.Count("run.inside-partial-hypotheses")
 	}
 	for _, o := range oracles {
 		if cd.verdict(o) != "" {
@@ -321,7 +389,7 @@ func emit(c *fw.Ctx, u *uni, rn, rv, tag string) {
 }
 
 func classify(oracle string, ops, res []string) string {
-	if oracle != "P2" || len(ops) != 1 {
+	if (oracle != "P2" && oracle != "P3") || len(ops) != 1 {
 		return ""
 	}
 	f := strings.Fields(ops[0])
@@ -332,8 +400,15 @@ func classify(oracle string, ops, res []string) string {
 	if !ok {
 		return ""
 	}
-	if strings.Contains(classifyLine(u, rn, rv), "late=1") {
+	cl := classifyLine(u, rn, rv)
+	if oracle == "P2" && strings.Contains(cl, "late=1") {
 		return "F-C08-extras"
+	}
+	if oracle == "P2" && strings.Contains(cl, "route=1") {
+		return "F-C08-route"
+	}
+	if strings.Contains(cl, "stale=1") {
+		return "F-C08-stale"
 	}
 	return ""
 }
@@ -370,6 +445,9 @@ func run(c *fw.Ctx) {
 			o.markers, o.extras, o.malformed = 30, 20, true
 		}
 		o.gadget = r.Intn(3) == 0
+		o.friendly = r.Intn(5) < 3
+		o.route = r.Intn(25) == 0
+		o.late = r.Intn(25) == 0
 		u := genUniverse(r, o)
 		var all [][2]string
 		for _, p := range u.Pkgs {
